@@ -16,11 +16,16 @@ CONSTANTS
   FixRevertVerify = TRUE
   FixUnderflow = TRUE
   Fine = FALSE
-  EmptyDiff = {2, 4}
+  EmptyDiff = {}
   RootCheckedOnEmptyDiff = TRUE
   VerdictPerAnswer = TRUE
+  ClassA = {2, 4}
+  ClassB = {3, 4}
+  SierraSet = {2}
+  RememberKnown = FALSE
+  Windows = FALSE
 INIT Init
 NEXT Next
-INVARIANTS TypeOK LocalIsSourceBlocks ReorgExact StoredOnlyVerified
-PROPERTIES StoreSafe HeadMovesOnlyByStoreOrRevert RevertsJustified RevertsHaveEvidence
+INVARIANTS TypeOK LocalIsSourceBlocks ReorgExact StoredOnlyVerified ClassesExact StoredClassesComplete KnownIsCurrent
+PROPERTIES StoreSafe HeadMovesOnlyByStoreOrRevert RevertsJustified RevertsHaveEvidence NewClassesSufficient
 CHECK_DEADLOCK TRUE
